@@ -1,14 +1,15 @@
 /-
 Model of the poll thread, `frappy/modulebase.py`:
   `PollInfo` (246-268), `Module.setFastPoll` (662-671), `Module.callPollFunc` (673-695),
-  `Module.__pollThread` (697-795: prologue 726-749, loop 752-795), reconnect re-trigger (706-713).
+  `Module.__pollThread` (prologue: start-up round, start-up callback, `writeInitParams` of every module once more;
+  then the loop), reconnect re-trigger.  (Line numbers in this file refer to the pinned tree before the `fix:` commits.)
 
 Time is a virtual clock in integer ticks (the harness uses 1 tick = 2^-10 s, every interval and duration is a
 multiple of it, so the float arithmetic of the real loop is exact and equals the `Nat` arithmetic here).
 
 Everything outside the loop is a parameter (`Env`), chosen adversarially:
   * `adv k`   — the k-th `time.time()` of the loop returns a clock that moved on by `adv k + 1 ≥ 1` ticks,
-  * `dur k`, `out k` — duration and outcome of the k-th poll function call (`doPoll`, `read_*`, `initialReads`),
+  * `dur k`, `out k` — duration and outcome of the k-th call of the thread (`doPoll`, `read_*`, `initialReads`, `writeInitParams`),
   * `touch k` — parameter time stamps set while the k-th call ran (`announceUpdate`),
   * `ext k`   — what other threads did to the `PollInfo`s while the k-th call ran (each also sets the trigger event),
   * `wake k`  — the k-th `triggerPoll.wait`: what other threads do while it lasts, as batches `(d, exts)`: `d` ticks after
@@ -62,6 +63,8 @@ inductive Fn
   | doPoll
   | read (p : Nat)
   | init                     -- `initialReads`
+  | write                    -- `writeInitParams`: in the start-up round, and once more behind it (makes up for what a
+                             --   round broken off by a communication failure skipped)
   deriving DecidableEq, Repr, Inhabited
 
 /-- start of a call made by the poll thread: time, module (index in the thread's module list), function, duration -/
@@ -367,14 +370,15 @@ structure ProRes where
   evs : List Event
   aborted : Bool            -- a `CommunicationFailedError` ended the initial round
 
-/-- `mobj.initialReads()` for every module of the thread (`writeInitParams` contains its own errors, 797-821,
-and is not a poll function).  A `CommunicationFailedError` aborts the round, every other exception is logged
-(after `fix: an exception in initialReads …`). -/
+/-- `mobj.writeInitParams(); mobj.initialReads()` for every module of the thread: two calls.  `writeInitParams` contains
+its own errors (its outcome is not looked at) and is not a poll function.  A `CommunicationFailedError` in `initialReads`
+aborts the round, every other exception is logged (after `fix: an exception in initialReads …`). -/
 def initAll (env : Env) : List Nat → PollState → List Event → ProRes
   | [], σ, evs => ⟨σ, evs, false⟩
   | i :: is, σ, evs =>
-    let r := call env σ i .init
-    if r.out = .comm then ⟨r.σ, evs ++ [r.ev], true⟩ else initAll env is r.σ (evs ++ [r.ev])
+    let w := call env σ i .write
+    let r := call env w.σ i .init
+    if r.out = .comm then ⟨r.σ, evs ++ [w.ev] ++ [r.ev], true⟩ else initAll env is r.σ (evs ++ [w.ev] ++ [r.ev])
 
 /-- `mobj.callPollFunc(rfunc, raise_com_failed=True)` for every polled parameter -/
 def readAll (env : Env) : List Entry → PollState → List Event → ProRes
@@ -388,12 +392,31 @@ def allEntries : Nat → List Mod → List Entry
   | _, [] => []
   | i, m :: ms => (if m.enabled then m.polled.map (fun p => (i, p)) else []) ++ allEntries (i + 1) ms
 
-def prologue (c : Consts) (env : Env) (σ : PollState) : ProRes :=
+/-- the start-up round (`while True: try: … except CommunicationFailedError: … wait(0.1); break`): a communication
+failure in `initialReads` or in a first poll ends it at once -/
+def startupRound (c : Consts) (env : Env) (σ : PollState) : ProRes :=
   let r1 := initAll env (List.range σ.mods.length) σ []
   if r1.aborted then ⟨waitEvent env r1.σ c.startupWait, r1.evs, true⟩
   else
     let r2 := readAll env (allEntries 0 r1.σ.mods) r1.σ r1.evs
     if r2.aborted then ⟨waitEvent env r2.σ c.startupWait, r2.evs, true⟩ else r2
+
+/-- `for mobj in modules: mobj.writeInitParams()` behind the start-up round (`fix: start values skipped by a communication
+failure at startup are written before polling starts`): one call per module of the thread, polled or not.  It takes
+time, other threads act meanwhile; whatever a write function raises ends inside `writeInitParams`, so the outcome is not
+looked at.  (For a module whose values are already written it returns at once: duration 0 in the recorded environments.) -/
+def lateAll (env : Env) : List Nat → PollState → List Event → StepRes
+  | [], σ, evs => ⟨σ, evs⟩
+  | i :: is, σ, evs =>
+    let r := call env σ i .write
+    lateAll env is r.σ (evs ++ [r.ev])
+
+/-- everything before `while modules:` — the start-up round, then (after the start-up callback, which is not a call of
+the model) the configured values once more -/
+def prologue (c : Consts) (env : Env) (σ : PollState) : ProRes :=
+  let r := startupRound c env σ
+  let l := lateAll env (List.range r.σ.mods.length) r.σ r.evs
+  ⟨l.σ, l.evs, r.aborted⟩
 
 /-! ## the state the thread starts in -/
 
